@@ -489,6 +489,43 @@ func writerKinds(cx *CheckCtx, cr *CaseRun, ci int, o Op, tmp string) []Finding 
 		variants = append(variants, "plain")
 	}
 	const pre = "PRE|"
+	// GoString of the same object: the rendered text on success, a panic (as documented) on failure
+	func() {
+		rl, ok := prep()
+		if !ok {
+			return
+		}
+		ref := &failWriter{}
+		class0 := into(rl, "plain", ref)
+		rl, ok = prep()
+		if !ok || class0 == "panic" {
+			return
+		}
+		cx.Stats.OracleCases++
+		got, class := "", "ok"
+		func() {
+			defer func() {
+				if r := recover(); r != nil {
+					class = "panic"
+				}
+			}()
+			switch o.Kind {
+			case OpRender:
+				got = rl.files[o.F].GoString()
+			case OpFrag:
+				got = rl.regs[o.S].GoString()
+			default:
+				got = rl.files[o.F].Group.GoString()
+			}
+		}()
+		if (class0 == "ok") != (class == "ok") || (class0 == "ok" && got != ref.buf.String()) {
+			fs = append(fs, Finding{Property: "C10", Shape: "gostring-differs", What: fmt.Sprintf("GoString of the %v target: Render gives %s, GoString %s (it must return Render's text or panic when Render fails)", o.Kind, class0, class),
+				Case: cr.Case.Text(), Expected: trunc(class0 + " " + ref.buf.String()), Observed: trunc(class + " " + got)})
+		}
+	}()
+	if len(fs) > 0 {
+		return fs
+	}
 	for _, variant := range variants {
 		rl, ok := prep()
 		if !ok {
